@@ -127,9 +127,13 @@ package packets
 //@ ensures v3: old(pk.ProtocolVersion) != 5 && len(buf) >= 2 ==> r0 == nil && int(pk.PacketID) == u16(buf, 0)
 //@ ensures too-short: len(buf) < 2 ==> r0 != nil
 // verif:func packets.Packet.PubackDecode modifies=all
+//@ requires pk.FixedHeader.Remaining == len(buf)
 // verif:func packets.Packet.PubcompDecode modifies=all
+//@ requires pk.FixedHeader.Remaining == len(buf)
 // verif:func packets.Packet.PubrecDecode modifies=all
+//@ requires pk.FixedHeader.Remaining == len(buf)
 // verif:func packets.Packet.PubrelDecode modifies=all
+//@ requires pk.FixedHeader.Remaining == len(buf)
 // verif:func packets.Packet.SubackDecode modifies=all
 // verif:func packets.Packet.SubscribeDecode modifies=all
 // verif:loop packets.Packet.SubscribeDecode 1
